@@ -129,7 +129,11 @@ def o_deferred(slot: str, tail: str, dummy: bool = False, form: str = "xq%s", ex
     from peptacular.mass_calc import mass, comp
     val = form.replace("%s", tail)
     s = {"res": f"PE[{val}]P", "nterm": f"[{val}]-PEP", "cterm": f"PEP-[{val}]", "labile": "{" + val + "}PEP", "unknown": f"[{val}]?PEP",
-         "interval": f"P(EP)[{val}]", "static": f"<[{val}]@P>PEP"}[slot]
+         "interval": f"P(EP)[{val}]", "static": f"<[{val}]@P>PEP",
+         # an unresolvable rule next to a resolvable one for the same target (either order), residue and terminal targets
+         "static+ok": f"<[{val}]@P><[Acetyl]@P>PEP", "ok+static": f"<[Acetyl]@P><[{val}]@P>PEP",
+         "staticN+ok": f"<[{val}]@N-Term><[Acetyl]@N-Term>PEP", "ok+staticC": f"<[Acetyl]@C-Term><[{val}]@C-Term>PEP",
+         "static-multi": f"<[{val}]@P,E><[Acetyl]@E>PEP", "res+ok": f"PE[{val}][Acetyl]P", "ok+res": f"PE[Acetyl][{val}]P"}[slot]
     a = PP.parse(s)
     for fn in (mass, comp):
         try:
